@@ -11,6 +11,7 @@ name and the rules that need it fail closed as before.
     PrefixMap      : the Table            -> table   | Vec<usize> -> free | usize -> count
     PrefixSet      : the PrefixMap        -> 0
     views          : &Table               -> table   | ViewLoc    -> loc
+    entry handles  : &mut PrefixMap -> map | &mut Node -> node | &mut usize -> count | usize -> idx | DirectionForInsert -> direction | P -> prefix
     iterators      : (&|Option<&>|owned) Table -> table, or table_l / table_r when there are two (ordered like the struct's own
                      value-type parameters); the one Vec<..> -> nodes; the one field that is itself a crate iterator -> inner
                      (named structs) / 0 stays
@@ -74,6 +75,18 @@ def field_roles(raw):
             mp = [f for f in fs if "map::PrefixMap<" in _tys(raw, f["ty"])]
             if len(mp) == 1 and len(fs) == 1:
                 put(path, mp[0], "0")
+            continue
+        if path.endswith("::entry::VacantEntry") or path.endswith("::entry::OccupiedEntry"):
+            # entry handles (public types, private fields): each field has a type of its own
+            roles = [("map", lambda t: "map::PrefixMap<" in t), ("node", lambda t: "inner::Node<" in t), ("count", lambda t: t.replace("&'a ", "&").startswith("&mut usize")),
+                     ("idx", lambda t: t == "usize"), ("direction", lambda t: "DirectionForInsert<" in t), ("prefix", lambda t: t == "P")]
+            for role, pred in roles:
+                m_ = [f for f in fs if pred(_tys(raw, f["ty"]))]
+                if len(m_) == 1:
+                    put(path, m_[0], role)
+            for (p_, old), new in list(out.items()):
+                if p_ == path and new in names and (p_, new) not in out:
+                    del out[(p_, old)]
             continue
         tables = [f for f in fs if is_table(_tys(raw, f["ty"]))]
         if not tables and path in iters:
